@@ -10,6 +10,7 @@ EXTENDS FrameStream
 \*   large = 4098..65536, max = MaxPayloadLength, over = MaxPayloadLength + 1
 C8 == {"z", "one", "small", "fedge", "pedge", "large", "max", "over"}
 C5 == {"z", "one", "small", "large", "over"}
+C6 == {"z", "one", "small", "pedge", "max", "over"}
 AllEnds == {"close", "cutHdr", "cutBody", "over"}
 NoShare == {}
 ShareSmall == {"z", "one", "small"}
@@ -17,7 +18,13 @@ ShareSmall == {"z", "one", "small"}
 mcView == <<wire, nw, sent, conn, endk, rst, heap, nbuf, ret, seen>>
 genView == <<wire, nw, sent, conn, endk, rst, heap, nbuf, ret, seen, hist>>
 
-\* generation: one line per finished behaviour (the reader has failed: nothing can follow)
+\* generation: one line per finished behaviour (the reader has failed: nothing can follow), in a compact form
+\* ("W <class> <sub> <result>" | "R" | "E <ending>"; results "<kind> <sub> <class> <tag>") that checks/c18.py reads
+StepStr(a) == CASE a.name = "Write" -> "W " \o a.cls \o " " \o ToString(a.sub) \o " " \o a.res
+                [] a.name = "End"   -> "E " \o a.kind
+                [] OTHER            -> "R"
+RetStr(r) == "= " \o r.k \o " " \o ToString(r.sub) \o " " \o r.cls \o " " \o ToString(r.tag)
 GenLog == (rst' = "failed" /\ rst # "failed") =>
-             LogTransition(<<>>, lastAct', [hist |-> hist', endk |-> endk', ret |-> [i \in 1..Len(ret') |-> Show(heap', ret'[i])]])
+             PrintT("FS|" \o ToString(<<[i \in 1..Len(hist') |-> StepStr(hist'[i])],
+                                        [i \in 1..Len(ret') |-> RetStr(Show(heap', ret'[i]))]>>))
 =============================================================================
